@@ -214,6 +214,45 @@ def check_receive(arrivals, originals, obs):
         node.close()
 
 
+def check_number_reused_later(gap_ms, nseg, obs):
+    ''' A transfer completes; a little later (within the receiver's reassembly time-out of the first one) the same peer uses the
+    transfer number again, its segments arriving over a second or so.  Each segment of the second transfer arrives once: it is
+    queued once.  (Timers armed for the first transfer must not reach into the second.) '''
+    node = BtpuNode(None)
+    try:
+        first = bundle_of(20 * nseg, 3)
+        second = bundle_of(20 * nseg, 4)
+        sets = []
+        for bundle in (first, second):
+            sets.append([bw.encode_msg(dict(type=bw.T_END if idx == nseg - 1 else bw.T_SEG, hints=[], body=bw.seg_body(5, idx, bundle[idx * 20:(idx + 1) * 20])))
+                         for idx in range(nseg)])
+        for payload in sets[0]:
+            node.recv(payload, PEER_MAC)
+        popped = [bytes(node.call('recv_bundle_pop_data', tid)) for tid in node.queue()]
+        if popped != [first]:
+            return ['the first transfer was not queued once: %d item(s)' % len(popped)]
+        for idx, payload in enumerate(sets[1]):
+            node.sim.advance(gap_ms * 10 ** 6)
+            try:
+                node.recv(payload, PEER_MAC)
+            except Exception as err:  # pylint: disable=broad-except
+                return ['segment %d of the second transfer: the receive path raised %s' % (idx, type(err).__name__)]
+        node.sim.advance(3 * 10 ** 9)
+        obs['receive_histories'] += 1
+        obs['number_reused_later_histories'] = obs.get('number_reused_later_histories', 0) + 1
+        problems = []
+        popped = [bytes(node.call('recv_bundle_pop_data', tid)) for tid in node.queue()]
+        if popped != [second]:
+            problems.append('transfer number 5 used again %d ms after the first transfer completed, segments %d ms apart: every segment of the second '
+                            'transfer arrived once but %d bundle(s) were queued for it' % (gap_ms, gap_ms, len(popped)))
+        errs = [err for err in node.sim.world.callback_errors]
+        if errs:
+            problems.append('a timer armed for an earlier segment raised: callback %s raised %s' % (errs[0].source, errs[0].exc_type))
+        return problems
+    finally:
+        node.close()
+
+
 def rand_msg(rng):
     mtype = rng.choice([bw.T_BUNDLE, bw.T_SEG, bw.T_END, bw.T_PADDING])
     hints = []
@@ -363,6 +402,9 @@ def run_case(case):
                     arrivals = [(key, idx, payloads[idx], PEER_MAC) for idx in perm]
                     note(check_receive(arrivals, {key: (bundle, nseg)}, obs), 'oracle-segments', dict(n=nseg, order=list(perm), hint=with_hint),
                          'oracle|%d|%s|%s' % (nseg, perm, with_hint))
+        for gap_ms in (300, 450):
+            for nseg in (2, 3):
+                note(check_number_reused_later(gap_ms, nseg, obs), 'number-reused-later', dict(gap_ms=gap_ms, nseg=nseg), 'reuse-later|%d|%d' % (gap_ms, nseg))
         # another sender may cut a bundle so that a piece is empty (an exact multiple of its segment size, then an empty end segment)
         for sizes in ([20, 0], [20, 20, 0], [15, 0, 15], [0, 30]):
             bundle = bundle_of(sum(sizes), 7 + len(sizes))
